@@ -2,9 +2,9 @@
 SPECIFICATION Spec
 CONSTANTS
   Readers = {1}
-  Cap = 3
+  Cap = 4
   WScripts <- ScriptsMoveOne
-  ROps = 4
+  ROps = 3
   Mutant = "seq_zero_if_moved"
 INVARIANTS SeqsOk
 CHECK_DEADLOCK FALSE
